@@ -110,6 +110,10 @@ def matches(entry, f):
         base = f.get("input", "").split("#")[0]
         if not any(base.startswith(x) for x in (pre if isinstance(pre, list) else [pre])):
             return False
+    cc = entry.get("config_contains")
+    if cc is not None:
+        if not any(x in f.get("config", "") for x in (cc if isinstance(cc, list) else [cc])):
+            return False
     for k in ("property", "clause", "rule", "input", "config"):
         v = entry.get(k)
         if v is None or v == "*":
